@@ -143,7 +143,7 @@ func topFrame(stack string) string {
 
 // Explore runs the scenario over all schedules within its bound and fills a job result.
 func (sc *Scenario) Explore(deadline time.Time, r *JobResult) {
-	st := vsched.Explore(vsched.ExploreConfig{MaxBound: sc.MaxBound, Deadline: deadline, Prune: true, Run: sc.runOnce})
+	st := vsched.Explore(vsched.ExploreConfig{MaxBound: sc.MaxBound, Deadline: deadline, Prune: os.Getenv("VERIF_NOPRUNE") == "", Run: sc.runOnce})
 	r.Executions += int64(st.Executions)
 	r.States += int64(st.States)
 	r.Transitions += st.Points
